@@ -214,3 +214,14 @@ package api
 //@ trusted func (ReplicateMeta).RemoveTaskMsg
 //@   params recv ctx taskID msgID
 //@   modifies storeDom, storeVal
+
+// ---- C07: the message manager the writer hands serialized packs to ------------------------------------------
+// sentMessages / lastSentParam: calls of MessageManager.ReplicateMessage and the parameter object of the last one.
+// Assumed for every implementation: it completes the message through exactly one of SuccessFunc / FailFunc and
+// changes nothing the writer can see except the returned target position of the parameter.
+//@ ghost var sentMessages int
+//@ ghost var lastSentParam *ReplicateMessageParam
+//@ trusted func (MessageManager).ReplicateMessage
+//@   params recv message
+//@   ensures sentMessages == old(sentMessages) + 1 && lastSentParam == old(message.Param)
+//@   modifies sentMessages, lastSentParam, ReplicateMessageParam.TargetMsgPosition
